@@ -1,4 +1,6 @@
 import FancyModel.Driver.Engine
+import FancyModel.Driver.ApiOps
+import FancyModel.Generated
 /-!
 # `fmdriver`: one request per line on stdin, one answer per line on stdout (DESIGN.md §4.3)
 -/
@@ -6,21 +8,42 @@ open Fancy Fancy.Drv
 
 structure DState where
   cur : Cur := default
-  special : List Char := []
+  special : List Char := Fancy.Generated.specialChars
+  names : List (List Char × Nat) := []
+
+def parseNames (s : String) : List (List Char × Nat) :=
+  ((s.splitOn ",").filter (· ≠ "")).filterMap fun x =>
+    match x.splitOn "=" with
+    | [a, b] => match Wire.unhex a, b.toNat? with
+      | some a, some b => some (a.toList, b)
+      | _, _ => none
+    | _ => none
 
 def handle (st : DState) (line : String) : DState × String :=
   match line.splitOn "\t" with
-  | "special" :: [h] =>
-    match Wire.unhex h with
-    | some s => ({ st with special := s.toList }, "ok")
-    | none => (st, "bad-op")
-  | "pat" :: fields =>
-    let (cur, ans) := doPat st.special fields
-    ({ st with cur := cur }, ans)
+  | "special" :: [_] => (st, "ok")   -- the table comes from Generated.lean (re-extracted every run)
+  | ["note", _] => (st, "ok")
+  | ["pat", toks, brs] =>
+    let (cur, ans) := doPat st.special [toks, brs]
+    ({ st with cur := cur, names := [] }, ans)
+  | ["pat", toks, brs, names] =>
+    let (cur, ans) := doPat st.special [toks, brs]
+    ({ st with cur := cur, names := parseNames names }, ans)
   | ["facts"] => (st, doFacts st.cur)
   | ["prog"] => (st, doProg st.cur)
   | "caps" :: fields => (st, doCaps st.cur fields)
   | "chartab" :: fields => (st, doChartab fields)
+  | "iter" :: fields => (st, doIter st.cur fields)
+  | "riter" :: fields => (st, doRiter st.cur fields)
+  | "citer" :: fields => (st, doCiter st.cur fields)
+  | "split" :: fields => (st, doSplit st.cur fields)
+  | "splitn" :: fields => (st, doSplitn st.cur fields)
+  | "replace" :: fields => (st, doReplace st.cur st.names fields)
+  | "expand" :: fields => (st, doExpand fields)
+  | "check" :: fields => (st, doCheck fields)
+  | "tplescape" :: fields => (st, doTplEscape fields)
+  | "escape" :: fields => (st, doEscape st.special fields)
+  | "state" :: fields => (st, doState fields)
   | _ => (st, "bad-op")
 
 partial def loop (h : IO.FS.Stream) (out : IO.FS.Stream) (st : DState) : IO Unit := do
